@@ -54,6 +54,12 @@ Theorem c18_translated_reply_outcome_names : forall d (s : string),
     (CVal (match outcome_of_name s with Some o => VCon "Ok" [outcome_v o] | None => VCon "Err" [e] end)).
 Proof. exact translated_reply_on_new. Qed.
 
+(* two translators, one table: the regenerated table of outcome names the hand model of the reply table uses equals the function proved
+   of the translated `ReplyOn::new` *)
+Theorem c18_regenerated_outcome_table_is_the_translated_function : forall s,
+  SV.Model.GenTables.reply_on_tag_of_string s = option_map outcome_tag (outcome_of_name s).
+Proof. exact regenerated_outcome_table_is_the_translated_function. Qed.
+
 Example c18_structural_example :
   new_method_diags [Other (VStr "const X"); Method "helper" [VStr "&self"] (VStr ""); Method "new" [] (VStr "pub const fn")] = [] /\
   new_method_diags [Method "new" [VStr "owner: Addr"] (VStr "")] = [VStr "Parameters not allowed in `new` method."] /\
@@ -65,3 +71,4 @@ Print Assumptions c18_translated_constructor_check.
 Print Assumptions c18_translated_constructor_verdicts.
 Print Assumptions c18_translated_reply_outcomes_exclude.
 Print Assumptions c18_translated_reply_outcome_names.
+Print Assumptions c18_regenerated_outcome_table_is_the_translated_function.
